@@ -112,7 +112,11 @@ type Options struct {
 	Fill            byte // written over fresh regions (the real pools hand out recycled, dirty memory); default 0xCD
 	NoFill          bool // leave fresh regions zeroed
 	QuarantineBytes int  // retired regions kept (FIFO) before they are dropped; default 96 MiB
-	Fault           bool // mmap + mprotect mode
+	// QuarantineRegions bounds the number of retired regions (0: unbounded in
+	// shadow mode, 4096 in fault mode, where every region costs the process
+	// two virtual memory areas and the kernel allows about 65 000).
+	QuarantineRegions int
+	Fault             bool // mmap + mprotect mode
 	// FramePrefix selects the frames that count as "code under test" in stacks
 	// and sites; default "github.com/lesismal/nbio/". Frames of the mempool
 	// package (the allocator API itself) never count.
@@ -131,6 +135,13 @@ type Stats struct {
 	PoisonedBytes, SweptBytes                int64
 	Leaked                                   int64 // regions still live at EndCase
 	Evicted                                  int64
+	// FaultMappingsKept: fault mode, leaked (still live) regions that left the
+	// quarantine and stay mapped for ever because the code under test may
+	// still use them legitimately.
+	FaultMappingsKept int64
+	// FaultMmapFailures: fault mode, allocations the kernel refused to map;
+	// they were served from ordinary memory (shadow checks only).
+	FaultMmapFailures int64
 }
 
 // Allocator implements mempool.Allocator with shadow state.
@@ -168,6 +179,9 @@ func New(o Options) *Allocator {
 	if o.FramePrefix == "" {
 		o.FramePrefix = "github.com/lesismal/nbio/"
 	}
+	if o.Fault && o.QuarantineRegions <= 0 {
+		o.QuarantineRegions = 4096
+	}
 	return &Allocator{o: o, pages: map[uintptr][]*region{}, pairs: map[string]struct{}{}, siteMemo: map[stack]string{}}
 }
 
@@ -183,6 +197,10 @@ func (a *Allocator) OnReport(f func(Report)) {
 func (a *Allocator) OnViolation(f func(kind, detail string)) {
 	a.OnReport(func(r Report) { f(r.Kind, r.Detail) })
 }
+
+// FaultMode reports whether freed memory is inaccessible (Options.Fault): the
+// harness must then not read a buffer CheckLive has reported.
+func (a *Allocator) FaultMode() bool { return a.o.Fault }
 
 // Poison returns the byte freed regions are filled with.
 func (a *Allocator) Poison() byte { return a.o.Poison }
@@ -249,7 +267,11 @@ func (a *Allocator) newRegion(n int, skip int) (*region, []byte) {
 	r := &region{size: c, st: stLive}
 	if a.o.Fault {
 		r.mmap, r.mem = faultAlloc(c)
-	} else {
+		if r.mmap == nil {
+			a.st.FaultMmapFailures++
+		}
+	}
+	if r.mem == nil {
 		r.mem = make([]byte, c)
 	}
 	if !a.o.NoFill {
@@ -507,7 +529,7 @@ func (a *Allocator) appendBytes(p *[]byte, mb []byte, ms string) *[]byte {
 		// reported already.
 		r.poisonReported = true
 		r.headerReported = true
-		if a.o.Fault {
+		if r.mmap != nil {
 			// the pages are inaccessible: continue on a detached copy
 			*p = make([]byte, len(*p), len(*p)+nmore)
 		}
@@ -558,8 +580,12 @@ func (a *Allocator) Free(p *[]byte) {
 		r.fhdr = p
 		r.fptr, r.flen, r.fcap = bp, len(*p), cap(*p)
 		a.uncount(r)
-		if a.o.Fault {
+		if r.mmap != nil {
 			faultProtect(r.mmap)
+			// a mapping is a scarce resource: the bound on retired regions
+			// must also hold inside a case that frees tens of thousands
+			a.retire(r)
+			reps = a.evict(reps)
 		} else {
 			fill(r.mem, a.o.Poison)
 			a.st.PoisonedBytes += int64(r.size)
@@ -612,10 +638,10 @@ func (a *Allocator) State(b []byte) string {
 
 // check verifies the poison and the freed header of one freed region.
 func (a *Allocator) check(r *region, reps []Report) []Report {
-	if r.st != stFreed {
+	if r.st != stFreed || r.mem == nil {
 		return reps
 	}
-	if !a.o.Fault && !r.poisonReported {
+	if r.mmap == nil && !r.poisonReported {
 		a.st.SweptBytes += int64(r.size)
 		if r.mem[0] == a.o.Poison && bytes.Equal(r.mem[1:], r.mem[:len(r.mem)-1]) {
 			goto HEADER
@@ -649,29 +675,46 @@ HEADER:
 	return reps
 }
 
+func (r *region) footprint() int {
+	if r.mmap != nil {
+		return len(r.mmap)
+	}
+	return r.size
+}
+
 func (a *Allocator) retire(r *region) {
 	if r.retired {
 		return
 	}
 	r.retired = true
 	a.fifo = append(a.fifo, r)
-	a.fifoSize += r.size
+	a.fifoSize += r.footprint()
 }
 
 func (a *Allocator) evict(reps []Report) []Report {
-	for a.fifoSize > a.o.QuarantineBytes && a.fifoHead < len(a.fifo) {
+	for a.fifoHead < len(a.fifo) && (a.fifoSize > a.o.QuarantineBytes || (a.o.QuarantineRegions > 0 && len(a.fifo)-a.fifoHead > a.o.QuarantineRegions)) {
 		r := a.fifo[a.fifoHead]
 		a.fifo[a.fifoHead] = nil
 		a.fifoHead++
-		a.fifoSize -= r.size
+		a.fifoSize -= r.footprint()
 		reps = a.check(r, reps)
 		a.uncount(r)
 		a.remove(r)
 		a.st.Evicted++
-		if a.o.Fault && r.st == stFreed {
-			// live (leaked) and abandoned mappings stay mapped for ever: the
-			// code under test may still use them legitimately
-			faultRelease(r.mmap)
+		if a.o.Fault {
+			// A region that is still live (leaked) stays mapped for ever: the
+			// code under test may use it legitimately at any later time. A
+			// region abandoned by growth is unmapped like a freed one: stale
+			// use is legal right after the growing Append, not thousands of
+			// retired regions later.
+			if r.mmap == nil {
+				// served from ordinary memory
+			} else if r.st == stLive {
+				a.st.FaultMappingsKept++
+				faultKeep(r.mmap)
+			} else {
+				faultRelease(r.mmap)
+			}
 		}
 		r.mem, r.mmap, r.fhdr = nil, nil, nil
 	}
@@ -702,7 +745,7 @@ func (a *Allocator) EndCase() CaseStats {
 	a.cMallocs, a.cFrees = 0, 0
 	for _, r := range a.thisCase {
 		reps = a.check(r, reps)
-		if r.st == stLive {
+		if r.st == stLive && r.mem != nil {
 			cs.Leaked++
 			cs.LeakedBytes += r.size
 			if len(cs.LeakSites) < 8 {
